@@ -112,20 +112,26 @@ RULES = {
 }
 
 # property -> rule ids that decide its structural part
+# rules of the data path (claim / publish / validate / read / commit, modes, stream list, capacity): the damage of
+# breaking any of them shows up as lost / duplicated / reordered / overwritten / torn / double-dropped values, i.e.
+# under several of C01..C06 and C12 at once, so all of those checks evaluate all of them
+DATAPATH = ['P1a', 'P1b', 'P1c', 'P1d', 'P1e', 'P1f', 'P1g', 'P1h', 'P2a', 'P2b', 'P2e', 'P3a', 'P3b', 'P3c', 'P3e', 'P3f', 'P3g', 'P3t',
+            'P4', 'P4a', 'P4e', 'P5a', 'P5b', 'P5c', 'P9b', 'P10a', 'P10b', 'P10f', 'P10g', 'P15', 'P15w', 'S1', 'W1', 'W2', 'W3', 'W5', 'W8',
+            'W11', 'W13', 'O1', 'O2']
+
 PROPS = {
-    'C01': ['P1a', 'P1d', 'P1e', 'P1f', 'P1g', 'P1h', 'W1', 'W2', 'W3', 'P3a', 'P3e', 'P3g', 'P3t', 'P4', 'P4a', 'P4e', 'P5a', 'P5b', 'P5c', 'P2a', 'P2b', 'P2e',
-            'W11', 'W13', 'P10a', 'P10b', 'P10f', 'P15', 'P15w', 'S1', 'O1', 'O2'],
-    'C02': ['W1', 'P1a', 'P1d', 'P1e', 'P1g', 'P3a', 'P3e', 'P3g', 'P3t', 'P4a', 'P4e', 'P5b', 'P5c', 'P2a', 'P2e', 'P10b', 'P10f', 'P15', 'P15w', 'O1'],
-    'C03': ['P1a', 'P1b', 'P1c', 'P1h', 'P10a', 'P10b', 'P10f', 'P10g', 'P9b', 'W5', 'P15', 'P15w', 'O2'],
-    'C04': ['P3a', 'P3b', 'P3c', 'P3t', 'P1a', 'P1b', 'P1c', 'P1e', 'P4', 'P4a', 'P4e', 'P5b', 'P5c', 'P10b', 'P10f', 'W3', 'W8', 'W13', 'W14', 'S1', 'O1', 'O2'],
-    'C05': ['W3', 'P1c', 'P1e', 'P1f', 'P3e', 'P3t', 'P4', 'P5b', 'P5c', 'P10b', 'P10f', 'P13c', 'W14', 'S1'],
-    'C06': ['P3b', 'P3f', 'P1b', 'P1h', 'W5', 'P10a', 'P10b', 'P10f', 'P10g', 'P9b'],
+    'C01': DATAPATH,
+    'C02': DATAPATH,
+    'C03': DATAPATH,
+    'C04': DATAPATH + ['W14'],
+    'C05': DATAPATH + ['P13c', 'W14'],
+    'C06': DATAPATH,
     'C07': ['P3f', 'P6b', 'W6', 'P2e', 'P8', 'P7a', 'P7b', 'P7f', 'O3'],
     'C08': ['P7a', 'P7b', 'P7f', 'P2d', 'P8', 'P6b', 'P6c', 'P6d'],
     'C09': ['P1a', 'P1b', 'P1h', 'P3f', 'P6b', 'P9b', 'P9c', 'P9f', 'P9g', 'P10a', 'P10b', 'P10e', 'P11a', 'P11b', 'P11c', 'S1', 'S3', 'W13', 'C13map', 'P15', 'P15w', 'P7e', 'P7f'],
     'C10': ['P10a', 'P10b', 'P10c', 'P10d', 'P10f', 'P15w', 'S5', 'W9'],
     'C11': ['P9a', 'P9b', 'P9c', 'P9f', 'P10b', 'P10d', 'P10e', 'P10f', 'P10g', 'P1b'],
-    'C12': ['W11', 'P2a', 'P2b', 'P2e', 'P5a', 'P5b', 'P5c', 'P3b', 'P3c', 'P9b', 'P9g', 'W6', 'W7', 'W13'],
+    'C12': DATAPATH + ['P9g', 'W6', 'W7'],
     'C13': ['C13map', 'P2c', 'P9c', 'P9d', 'W10', 'P11a', 'P11b', 'P11e', 'P7c'],
     'C14': ['P2d', 'P11c', 'P11d', 'P9d', 'P11e', 'P11g', 'P8', 'P7c', 'P7d', 'P7f', 'P6c', 'P6d'],
     'C15': ['P11a', 'P11b', 'P11c', 'P6b', 'P6d', 'P11f', 'P7e', 'P7f', 'P7g', 'P7a', 'S3'],
